@@ -125,7 +125,8 @@ def layout(draw, spec, sub_manifests=True, duplicates=True, ignores=True,
                     continue
                 tags.append('ignore-absent')
             cands = [i for i, m in enumerate(manifests)
-                     if covers(m['dir'], ip)]
+                     if covers(m['dir'], ip)
+                     and rel(ip, m['dir']).strip('/') != '']
             mi = draw(st.sampled_from(cands))
             manifests[mi]['entries'].append({'tag': 'IGNORE', 'path': ip})
             ignored.append(ip)
@@ -271,6 +272,8 @@ def render(lay):
         for c in children[i]:
             data = do(c)
             cm = manifests[c]
+            if not cm.get('registered', True):
+                continue
             entries.append(R.Entry(
                 'MANIFEST', path=rel(cm['p'], m['dir']), size=len(data),
                 checksums=R.digests(data, cm['mhash'])))
